@@ -199,7 +199,9 @@ func c11CallSites(r *Report, p *Prog, arch string, contracts map[string]*xContra
 				r.Count("asm_call_sites_"+arch, 1)
 				if env == nil {
 					env = NewLinEnv(p, fn)
-					env.lenSum = func(c2 *ssa.Function, call2 *ssa.Call, en *LinEnv) ([]*Lin, bool) { return retLenSummary(p, c2, 0, call2, en, 0) }
+					env.lenSum = func(c2 *ssa.Function, call2 *ssa.Call, en *LinEnv) ([]*Lin, bool) {
+						return retLenSummary(p, c2, 0, call2, en, 0)
+					}
 				}
 				// substitution: callee scalar symbols -> caller expressions
 				subst := map[string]*Lin{}
@@ -442,7 +444,9 @@ func proveWithCallers(p *Prog, fn *ssa.Function, E *Lin, facts []Fact, depth int
 				n++
 				if env == nil {
 					env = NewLinEnv(p, caller)
-					env.lenSum = func(c2 *ssa.Function, call2 *ssa.Call, en *LinEnv) ([]*Lin, bool) { return retLenSummary(p, c2, 0, call2, en, 0) }
+					env.lenSum = func(c2 *ssa.Function, call2 *ssa.Call, en *LinEnv) ([]*Lin, bool) {
+						return retLenSummary(p, c2, 0, call2, en, 0)
+					}
 				}
 				// the callee's local facts that only mention parameters also hold... they are path facts inside the callee: keep them as hypotheses
 				sub := linConst(E.C)
